@@ -241,11 +241,12 @@ pub fn c_header(h: &RHeader) -> CResult<coset::Header> {
         partial_iv: h.partial_iv.clone(),
         counter_signatures: h.counter_signatures.iter().map(c_signature).collect::<CResult<Vec<_>>>()?,
         rest: h.rest.iter().map(|(l, v)| (c_label(l), item_to_value(v))).collect(),
+        ..Default::default()
     })
 }
 
 pub fn c_protected(p: &RProtected) -> CResult<coset::ProtectedHeader> {
-    Ok(coset::ProtectedHeader { original_data: p.original.clone(), header: c_header(&p.header)? })
+    Ok(coset::ProtectedHeader { original_data: p.original.clone(), header: c_header(&p.header)?, ..Default::default() })
 }
 
 pub fn c_signature(s: &RSignature) -> CResult<coset::CoseSignature> {
@@ -253,6 +254,7 @@ pub fn c_signature(s: &RSignature) -> CResult<coset::CoseSignature> {
         protected: c_protected(&s.protected)?,
         unprotected: c_header(&s.unprotected)?,
         signature: s.signature.clone(),
+        ..Default::default()
     })
 }
 
@@ -262,6 +264,7 @@ pub fn c_recipient(r: &RRecipient) -> CResult<coset::CoseRecipient> {
         unprotected: c_header(&r.unprotected)?,
         ciphertext: r.ciphertext.clone(),
         recipients: r.recipients.iter().map(c_recipient).collect::<CResult<Vec<_>>>()?,
+        ..Default::default()
     })
 }
 
@@ -271,6 +274,7 @@ pub fn c_sign(s: &RSign) -> CResult<coset::CoseSign> {
         unprotected: c_header(&s.unprotected)?,
         payload: s.payload.clone(),
         signatures: s.signatures.iter().map(c_signature).collect::<CResult<Vec<_>>>()?,
+        ..Default::default()
     })
 }
 
@@ -280,6 +284,7 @@ pub fn c_sign1(s: &RSign1) -> CResult<coset::CoseSign1> {
         unprotected: c_header(&s.unprotected)?,
         payload: s.payload.clone(),
         signature: s.signature.clone(),
+        ..Default::default()
     })
 }
 
@@ -290,6 +295,7 @@ pub fn c_mac(s: &RMac) -> CResult<coset::CoseMac> {
         payload: s.payload.clone(),
         tag: s.tag.clone(),
         recipients: s.recipients.iter().map(c_recipient).collect::<CResult<Vec<_>>>()?,
+        ..Default::default()
     })
 }
 
@@ -299,6 +305,7 @@ pub fn c_mac0(s: &RMac0) -> CResult<coset::CoseMac0> {
         unprotected: c_header(&s.unprotected)?,
         payload: s.payload.clone(),
         tag: s.tag.clone(),
+        ..Default::default()
     })
 }
 
@@ -308,6 +315,7 @@ pub fn c_encrypt(s: &REncrypt) -> CResult<coset::CoseEncrypt> {
         unprotected: c_header(&s.unprotected)?,
         ciphertext: s.ciphertext.clone(),
         recipients: s.recipients.iter().map(c_recipient).collect::<CResult<Vec<_>>>()?,
+        ..Default::default()
     })
 }
 
@@ -316,6 +324,7 @@ pub fn c_encrypt0(s: &REncrypt0) -> CResult<coset::CoseEncrypt0> {
         protected: c_protected(&s.protected)?,
         unprotected: c_header(&s.unprotected)?,
         ciphertext: s.ciphertext.clone(),
+        ..Default::default()
     })
 }
 
@@ -330,6 +339,7 @@ pub fn c_key(k: &RKey) -> CResult<coset::CoseKey> {
         key_ops: k.key_ops.iter().map(c_reg::<iana::KeyOperation>).collect::<CResult<_>>()?,
         base_iv: k.base_iv.clone(),
         params: k.params.iter().map(|(l, v)| (c_label(l), item_to_value(v))).collect(),
+        ..Default::default()
     })
 }
 
@@ -354,6 +364,7 @@ pub fn c_claims(c: &RClaims) -> CResult<coset::cwt::ClaimsSet> {
             .iter()
             .map(|(l, v)| Ok((c_regp::<iana::CwtClaimName>(l)?, item_to_value(v))))
             .collect::<CResult<Vec<_>>>()?,
+        ..Default::default()
     })
 }
 
@@ -365,6 +376,7 @@ pub fn c_party(p: &RParty) -> coset::PartyInfo {
             RNonce::Int(i) => coset::Nonce::Integer(*i),
         }),
         other: p.other.clone(),
+        ..Default::default()
     }
 }
 
@@ -373,6 +385,7 @@ pub fn c_supp_pub(s: &RSuppPub) -> CResult<coset::SuppPubInfo> {
         key_data_length: s.key_data_length,
         protected: c_protected(&s.protected)?,
         other: s.other.clone(),
+        ..Default::default()
     })
 }
 
